@@ -15,11 +15,11 @@ import (
 
 // specEnv evaluates one contract expression to an SMT term.
 type specEnv struct {
-	f     *frame
-	pkg   *types.Package // scope for type and constant names
-	st    *State
-	pre   *State
-	names map[string]Val
+	f       *frame
+	pkg     *types.Package // scope for type and constant names
+	st      *State
+	pre     *State
+	names   map[string]Val
 	noLocal bool // names resolve in the environment only (prev())
 	closed  bool // callee clause: the caller's parameters are not visible
 }
